@@ -94,6 +94,7 @@ def _call(f):
 def RUN(name, outer):
     f = globals()[name]
     _rt.reset()
+    pre = _rt.desc(sys.exc_info()[1])       # not "-": an EARLIER call left its exception behind in this process
     if outer:
         try:
             raise _rt.Z()
@@ -103,7 +104,7 @@ def RUN(name, outer):
     else:
         out = _call(f)
         after = _rt.desc(sys.exc_info()[1])
-    return json.dumps([list(_rt.LOG), out, after])
+    return json.dumps([list(_rt.LOG), out, after, pre])
 '''
 
 P_DRIVER = r'''
@@ -257,7 +258,7 @@ def expected(case):
 def same(want, got):
     """compare an expectation with an observation; the bound exception of a handler is only
     observed when the rendered handler uses its `as` name ("?" otherwise)"""
-    if not isinstance(got, list) or len(got) != 3:
+    if not isinstance(got, list) or len(got) < 3:
         return False
     if want[1] != got[1] or want[2] != got[2] or len(want[0]) != len(got[0]):
         return False
